@@ -49,6 +49,7 @@ import (
 	"strconv"
 	"strings"
 	"sync"
+	"syscall"
 	"time"
 
 	"bngverif/hx"
@@ -577,6 +578,33 @@ func (r *run) qosHas(ip net.IP) bool {
 	return false
 }
 
+func (r *run) splitFirst(p *dhcpv4.DHCPv4, done chan<- string) { done <- r.send(p) }
+
+func (r *run) splitSecond(f []string, done chan<- string) {
+	x, _ := r.inner(f)
+	done <- x
+}
+
+// realNow is the wall clock in seconds (the time package is virtual inside a synctest bubble)
+func realNow() int64 {
+	var tv syscall.Timeval
+	_ = syscall.Gettimeofday(&tv)
+	return tv.Sec
+}
+
+var stackBuf = make([]byte, 1<<18)
+
+// parked reports whether a goroutine running the named harness function is blocked on a mutex
+func parked(fn string) bool {
+	buf := stackBuf[:runtime.Stack(stackBuf, true)]
+	for _, g := range strings.Split(string(buf), "\n\n") {
+		if strings.Contains(g, "dhcpterm.(*run)."+fn+"(") && (strings.Contains(g, "[sync.Mutex.Lock") || strings.Contains(g, "[sync.RWMutex")) {
+			return true
+		}
+	}
+	return false
+}
+
 // inner runs a termination op (rel / dec / cleanup) and returns its reply
 func (r *run) inner(f []string) (string, bool) {
 	if len(f) == 1 && f[0] == "cleanup" {
@@ -722,48 +750,32 @@ func (r *run) Do(op string) string {
 				return "badop"
 			}
 		}
-		var ip net.IP
-		if l := r.leaseOf(k1); l != nil {
-			ip = l.IP
-		}
 		r.nat.HoldPoolForVerif()
 		done := make(chan string, 1)
-		go func() { done <- r.send(p1) }()
-		// wait until the first termination has either returned or is parked at the held lock.  Parked = the QoS entry
-		// of its address is gone (RemoveSubscriberQoS is the call right before DeallocateNAT).  A first termination that
-		// never gets that far and never returns (a changed handler) is reported as `stuck` instead of hanging the run.
-		r1, finished, stuck := "", false, false
-		for spins := 0; ; spins++ {
+		go r.splitFirst(p1, done)
+		// wait until the first termination has either returned or is parked on a mutex (the held lock)
+		r1, finished := "", false
+		for t0, spins := realNow(), 0; !finished && !(spins%64 == 63 && parked("splitFirst")); spins++ {
 			select {
 			case r1 = <-done:
 				finished = true
 			default:
+				if realNow()-t0 > 60 {
+					r.nat.ReleasePoolForVerif()
+					<-done
+					syncWait()
+					return "stuck " + r.snapshot()
+				}
+				runtime.Gosched()
 			}
-			if finished || (takes && !r.qosHas(ip)) {
-				break
-			}
-			if spins > 200000 {
-				stuck = true
-				break
-			}
-			runtime.Gosched()
-		}
-		if stuck {
-			r.nat.ReleasePoolForVerif()
-			<-done
-			syncWait()
-			return "stuck " + r.snapshot()
 		}
 		// the second termination must not need the held lock (that was checked above against the state the first one
 		// leaves); it runs on a goroutine of its own all the same, so that a handler that does reach the lock (because
 		// the first one did not take the lease out of the table) shows as `blocked:` instead of hanging the run
 		done2 := make(chan string, 1)
-		go func() {
-			x, _ := r.inner(second)
-			done2 <- x
-		}()
+		go r.splitSecond(second, done2)
 		r2, fin2 := "", false
-		for spins := 0; spins < 1000000 && !fin2; spins++ {
+		for t0, spins := realNow(), 0; !fin2 && !(spins%64 == 63 && (parked("splitSecond") || realNow()-t0 > 60)); spins++ {
 			select {
 			case r2 = <-done2:
 				fin2 = true
